@@ -474,6 +474,34 @@ fn exec_call_inner(ctx: &mut Ctx, idx: usize, c: &Value, keep: &mut Option<Owned
             }
             json!({"ok": true})
         }
+        // ------------------------------------------------------------------ raw action by the caller
+        (_, "raw") => {
+            // something the *caller* (or anybody) does between two library calls, with plain libc
+            let a = cs(s(c, "a"));
+            let b = cs(s(c, "b"));
+            let rc = unsafe {
+                match s(c, "act") {
+                    "rename" => libc::rename(a.as_ptr(), b.as_ptr()),
+                    "unlink" => libc::unlink(a.as_ptr()),
+                    "rmdir" => libc::rmdir(a.as_ptr()),
+                    "mkfile" => {
+                        let fd = libc::open(a.as_ptr(), libc::O_CREAT | libc::O_WRONLY | libc::O_CLOEXEC, 0o644);
+                        if fd >= 0 {
+                            libc::write(fd, b"replacement\n".as_ptr() as *const _, 12);
+                            libc::close(fd);
+                            0
+                        } else {
+                            -1
+                        }
+                    }
+                    "mkdir" => libc::mkdir(a.as_ptr(), 0o755),
+                    "mkfifo" => libc::mkfifo(a.as_ptr(), 0o644),
+                    "symlink" => libc::symlink(b.as_ptr(), a.as_ptr()),
+                    _ => -1,
+                }
+            };
+            json!({"ok": rc == 0, "errno": if rc == 0 { 0 } else { crate::tree::errno() }, "raw": true})
+        }
         // ------------------------------------------------------------------ handles
         (_, "reopen") => {
             // reopen the fd returned by call `of` (optionally moved to descriptor number `dupto`)
@@ -483,8 +511,13 @@ fn exec_call_inner(ctx: &mut Ctx, idx: usize, c: &Value, keep: &mut Option<Owned
                 None => return json!({"ok": false, "skip": "no handle"}),
             };
             let mut tmp: Option<i32> = None;
+            let mut saved: i32 = -1;
             let hfd = if let Some(n) = c.get("dupto").and_then(|v| v.as_i64()) {
                 let n = n as i32;
+                // whatever currently lives at descriptor n is moved out of the way and put back afterwards
+                if unsafe { libc::fcntl(n, libc::F_GETFD) } >= 0 {
+                    saved = unsafe { libc::fcntl(n, libc::F_DUPFD_CLOEXEC, 250) };
+                }
                 let r = unsafe { libc::dup3(src, n, libc::O_CLOEXEC) };
                 if r < 0 {
                     return json!({"ok": false, "skip": format!("dup3 failed {}", crate::tree::errno())});
@@ -510,7 +543,14 @@ fn exec_call_inner(ctx: &mut Ctx, idx: usize, c: &Value, keep: &mut Option<Owned
             };
             let still = unsafe { libc::fcntl(hfd, libc::F_GETFD) } >= 0;
             if let Some(n) = tmp {
-                unsafe { libc::close(n) };
+                unsafe {
+                    if saved >= 0 {
+                        libc::dup2(saved, n);
+                        libc::close(saved);
+                    } else {
+                        libc::close(n);
+                    }
+                }
             }
             let mut v = v;
             v["handle_still_open"] = json!(still);
